@@ -160,6 +160,33 @@ harnesses! {
         reach!("end");
         core::mem::forget(s);
     }
+    fn c06_q_extend_filtered [10] {
+        // extend from an iterator whose size hint (upper bound 3) exceeds what it yields (2)
+        setup!(Dna, 64, 3, 3, 6, w, src, s);
+        let (x, y) = (Dna::try_from_bits(any_u8() & 3).unwrap(), Dna::try_from_bits(any_u8() & 3).unwrap());
+        s.extend([x, Dna::G, y].into_iter().enumerate().filter(|(i, _)| *i != 1).map(|(_, d)| d));
+        assert!(s.len() == 5, "C06.extend.len_is_number_of_items_yielded");
+        let i = any_usize();
+        assume(i < 5);
+        let want = if i < 3 { old!(Dna, oracle::DNA, w, 3, i) } else if i == 3 { x.to_bits() } else { y.to_bits() };
+        assert!(s.nth(i).to_bits() == want, "C06.extend.list_model");
+        reach!("end");
+        core::mem::forget(s);
+    }
+    fn c06_q_remove_prefix_then_clone [10] {
+        // a clone taken after a prefix removal has the remaining symbols
+        setup!(Dna, 64, 3, 5, 5, w, src, s);
+        s.remove(..2);
+        let c = s.clone();
+        assert!(c.len() == 3 && s.len() == 3, "C06.remove.len");
+        let i = any_usize();
+        assume(i < 3);
+        assert!(c.nth(i).to_bits() == old!(Dna, oracle::DNA, w, 3, i + 2), "C06.clone.after_prefix_removal");
+        assert!(s.nth(i).to_bits() == old!(Dna, oracle::DNA, w, 3, i + 2), "C06.remove.list_model");
+        reach!("end");
+        core::mem::forget(s);
+        core::mem::forget(c);
+    }
     // ---- copies taken before an edit keep their content
     fn c06_q_clone_then_edit [10] {
         setup!(Dna, 64, 3, 4, 6, w, src, s);
